@@ -4,7 +4,7 @@ From RecordUpdate Require Import RecordSet.
 From SV Require Import Base.Base IR.State IR.NS IR.Ops Xform.Clone Proofs.AssocX Proofs.Frame Proofs.Inv1a Proofs.Inv2a
   Proofs.InvP Proofs.InvW Proofs.Fresh Proofs.NsInv Proofs.Repoint Proofs.CloneInv Proofs.RefK Proofs.CloneRef Proofs.CloneT Proofs.FieldT
   Proofs.CloneMemo Proofs.CloneRR Proofs.CloneFaith Proofs.CloneInvP Proofs.CloneFull
-  Proofs.CloneMemoK Proofs.CloneFaithK Proofs.CloneStage Proofs.CloneStageP Proofs.CloneRun Proofs.CloneRemap Proofs.CloneComm Proofs.CloneLib.
+  Proofs.CloneMemoK Proofs.CloneFaithK Proofs.CloneStage Proofs.CloneStageP Proofs.CloneRun Proofs.CloneEx Proofs.CloneRemap Proofs.CloneComm Proofs.CloneLib.
 Import ListNotations RecordSetNotations.
 
 (* the running invariant only looks at these fields *)
@@ -37,6 +37,7 @@ Proof.
     + intros x j w Hx Hw. rewrite Fi in Hw. apply (ri_nw _ _ _ R x j w Hx Hw).
     + intros d Hd. rewrite Fd. apply (ri_dr _ _ _ R d Hd).
   - intros d d' H Hk. apply (defimg_kids_same s0 d d' s s' m Fk). apply (rx_di _ _ _ X d d' H Hk).
+  - apply (ex_same s0 s s' m (rx_ex _ _ _ X) (st_fun _ _ _ (ri_st _ _ _ R))); assumption.
   - intros x x' H Hk. rewrite Fr. apply (ry_ir _ _ _ Y x x' H Hk).
   - intros d d' H Hk n. rewrite Fd. apply (ry_d1 _ _ _ Y d d' H Hk n).
   - intros d d' H Hk n. rewrite Fd. apply (ry_d2 _ _ _ Y d d' H Hk n).
